@@ -84,8 +84,10 @@ int xp_visit(const uint64_t key[2], int depth)
 
 void xp_outcome(uint64_t h)
 {
-	size_t mask = XP_OUTCOMES - 1, i = (size_t)h & mask;
+	/* callers pass structured keys: finalize so that linear probing stays short */
+	h ^= h >> 33; h *= 0xff51afd7ed558ccdULL; h ^= h >> 33; h *= 0xc4ceb9fe1a85ec53ULL; h ^= h >> 33;
 	if (h == 0) h = 1;
+	size_t mask = XP_OUTCOMES - 1, i = (size_t)h & mask;
 	for (size_t probe = 0; probe < XP_OUTCOMES; probe++, i = (i + 1) & mask) {
 		uint64_t cur = __atomic_load_n(&XS->outcomes[i], __ATOMIC_ACQUIRE);
 		if (cur == h) return;
